@@ -166,4 +166,13 @@ CHECKS['C03'] = {
   'technique': 'sign-guided CFG walk, mirror-image comparison, must-pass pairing, polynomial layout comparison, data-dependence ordering',
 }
 
+CHECKS['C10'] = {
+  'text': 'Decides structural necessary conditions of value-hashing and copying: no hash function derives anything from an address; '
+          'hash_data reads unsigned bytes with full coverage; container hashes XOR every element (key and value) once over a full '
+          'traversal from seed 0; default copy/assign/swap are guarded and cover all size bytes; memswap touches every byte exactly '
+          'once in each operand (loop headers evaluated for sizes 0..40) and exchanges. Does not decide per-value agreement of hash with eq.',
+  'note': ASSUME,
+  'technique': 'effect rule on pointer-to-integer conversions with positive example, sibling form extraction, loop-header partial evaluation',
+}
+
 NOT_APPLICABLE = {}
